@@ -155,6 +155,17 @@ def c06(ctx):
     return C.finish(ctx, "model_checking", RULE_ITER)
 
 
+def miri_vehicles(ctx, vecs, classes, executed):
+    """Optional vehicles (never fail a check): foreign targets under Miri. Implemented in vlib/miri.py."""
+    try:
+        from . import miri
+        miri.run(ctx, vecs, classes, executed)
+    except ToolError as e:
+        ctx.vehicles_skipped.append({"vehicle": "miri", "reason": str(e)[:300]})
+    except Exception as e:  # an infrastructure problem in an optional vehicle must never fail a check
+        ctx.vehicles_skipped.append({"vehicle": "miri", "reason": "driver error: %r" % (e,)})
+
+
 def replay_cmd(ctx, binp, cmd, vec, tag, classes, extra=(), env=None):
     args = [cmd, "--in", vec, "--threads", C.NCPU, "--tmp", os.path.join(ctx.dir, "iso_" + tag)] + list(extra)
     rep, rc, err = C.run_harness(ctx, binp, args, tag, env_extra=env)
@@ -647,6 +658,54 @@ def c15(ctx):
                     "TLC (Trace_Lib) against the sequential oracle; dispatcher events are checked against the per-thread projection of the spec (conformance); non-trivial = calls that raced through detect")
 
 
+def c09(ctx):
+    """Every backend / build configuration returns identical answers: one fixed vector set, every configuration."""
+    q = ctx.quick
+    ops = {"find", "rfind", "count"}
+    gs = [("g4", "MC_GenericMemchr", dict(VB=4, MinLen=4, MaxLen=22 if q else 40, DenseMax=8, Ops=ops, NNs={1, 2}, Bases=set(range(4)), Families={"sparse", "dense"}, Emit=True), GEN_INV, 3),
+          ("g16", "MC_GenericMemchr", dict(VB=16, MinLen=16, MaxLen=100 if q else 176, DenseMax=15, Ops=ops, NNs={1, 2}, Bases={0, 1, 15} if q else set(range(16)), Families={"single"}, Emit=True), GEN_INV, 3),
+          ("g32", "MC_GenericMemchr", dict(VB=32, MinLen=32, MaxLen=170 if q else 330, DenseMax=31, Ops=ops, NNs={1, 2}, Bases={0, 31} if q else {0, 1, 16, 31}, Families={"single"}, Emit=True), GEN_INV, 3)]
+    ss = [("s8", "MC_Swar", dict(WB=8, MaxLen=24 if q else 40, DenseMax=8, Ops=ops, NNs={1, 2}, Families={"sparse", "dense"}, Emit=True), SWAR_INV, 3),
+          ("s4", "MC_Swar", dict(WB=4, MaxLen=16 if q else 24, DenseMax=8, Ops=ops, NNs={1, 2}, Families={"sparse", "dense"}, Emit=True), SWAR_INV, 3)]
+    os_ = oracle_shards(ctx)
+    res = run_shards(ctx, gs + ss + os_, timeout=3000)
+    gvec, gn = vec_of(ctx, res, gs, "generic.ndjson")
+    svec, sn = vec_of(ctx, res, ss, "swar.ndjson")
+    mvec, mn = vec_of(ctx, res, os_, "mm.ndjson")
+    ctx.traces += gn + sn + mn
+    ctx.nontrivial += gn + sn + mn
+    classes = {"result", "panic"}
+    configs = []
+    base = C.build_harness()
+    for f in ("avx2", "sse2", "fallback"):
+        configs.append(("host@" + f, base, {"MEMCHR_VERIF_FORCE": f}, f))
+    configs.append(("host-alloc", C.build_harness(features=["alloc"]), None, "avx2"))
+    configs.append(("host-core", C.build_harness(features=[]), None, "avx2"))
+    configs.append(("host-avx2ct", C.build_harness(rustflags_extra=["-C", "target-feature=+avx2"]), None, "avx2"))
+    if not q:
+        configs.append(("host-logging", C.build_harness(features=["std", "logging"]), None, "avx2"))
+        configs.append(("host-release", C.build_harness(profile="release"), None, "avx2"))
+    try:
+        configs.append(("simd128", C.build_simd128(), None, "avx2"))
+    except ToolError as e:
+        ctx.vehicles_skipped.append({"vehicle": "simd128", "reason": str(e)[:300]})
+    executed = []
+    for (name, binp, env, force) in configs:
+        replay_cmd(ctx, binp, "replay-generic", gvec, "generic@" + name, classes, extra=["--variants", 1, "--stretches", 3], env=env)
+        replay_cmd(ctx, binp, "replay-generic", svec, "swar@" + name, classes, extra=["--no-scaled", "--variants", 1, "--stretches", 3], env=env)
+        replay_cmd(ctx, binp, "replay-mm", mvec, "mm@" + name, classes, extra=["--lifts", 5 if q else 10, "--groups", "find,rfind,iter,riter,blocks", "--force", force], env=env)
+        executed.append(name)
+    miri_vehicles(ctx, [gvec, svec, mvec], classes, executed)
+    ctx.evaluations += sum_exec(ctx, ["real_exec", "scaled_exec", "mm_exec", "miri_exec"])
+    ctx.assumptions.append("x86-64 compiled without SSE2 cannot be built in this sandbox; wasm simd128 runs against emulated intrinsics (7 functions in vehicles/wasm32_emul.rs)")
+    return C.finish(ctx, "model_checking",
+                    "the P-layer oracle is configuration independent and the L/F models are checked against it for every configuration constant (VB, UNROLL, mask kind, WB, Avail, prefilter "
+                    "kind); the check proper is a differential S->I run: one fixed TLC vector set (byte search at VB=4/16/32 and WB=4/8, all substring oracle vectors, 1:1 and stretched/lifted) "
+                    "is executed in every configuration: host with forced AVX2 / SSE2-only / fallback dispatch, features alloc-only and none, compile-time +avx2, the rewritten simd128 copy, "
+                    "and (optional vehicles) NEON on aarch64, big-endian s390x and 32-bit i686 under Miri; every configuration's answers must equal the vector's expected answers",
+                    extra_cov={"configurations_executed": executed})
+
+
 def c01(ctx):
     byte_search(ctx, ["find"], {"result", "panic"})
     return C.finish(ctx, "model_checking", RULE_BYTES)
@@ -663,7 +722,7 @@ def c07(ctx):
     return C.finish(ctx, "model_checking", RULE_BYTES)
 
 
-RECIPES = {"C01": c01, "C02": c02, "C03": c03, "C04": c04, "C05": c05, "C06": c06, "C07": c07, "C08": c08, "C10": c10, "C11": c11, "C12": c12, "C13": c13, "C14": c14, "C15": c15, "C16": c16, "C17": c17, "C18": c18, "C19": c19}
+RECIPES = {"C01": c01, "C02": c02, "C03": c03, "C04": c04, "C05": c05, "C06": c06, "C09": c09, "C07": c07, "C08": c08, "C10": c10, "C11": c11, "C12": c12, "C13": c13, "C14": c14, "C15": c15, "C16": c16, "C17": c17, "C18": c18, "C19": c19}
 
 
 def run(prop, tier, seed):
